@@ -26,7 +26,7 @@ def pr_ops(rng, names, n, hist):
     ops = []
     for _ in range(n):
         r = rng.random()
-        k = 1 if r < 0.25 else 2 if r < 0.55 else 3 if r < 0.8 else rng.randint(4, min(5, len(names)))
+        k = 1 if r < 0.25 else 2 if r < 0.55 else 3 if r < 0.8 else rng.randint(4, max(4, min(5, len(names))))
         k = min(k, len(names))
         ns = rng.sample(names, k)
         if rng.random() < 0.3 and "H2O(g)" in names and "H2O(g)" not in ns:
@@ -175,6 +175,11 @@ def corpus_cases():
             "SOLUTION 1", " temp 0", " -water 2", "GAS_PHASE 1", " -fixed_volume", " -volume 1", " -temperature 0", " CO2(g) 112.232"]
         out.append(dict(kind="fixedV", db="phreeqc.dat", gases=gases, tc=0.0, vol=1.0, ptot=112.232, p_init=[112.232],
                         heads=heads, input="\n".join(lines + pl + ["END"]) + "\n", corpus=True))
+    gases = ["H2O(g)"]
+    pl, heads = punch_block(gases)
+    lines = ["SOLUTION 1", " temp 10", " -water 100", "GAS_PHASE 1", " -fixed_volume", " -volume 0.01", " -temperature 10", " H2O(g) 1.0"]
+    out.append(dict(kind="fixedV", db="phreeqc.dat", gases=gases, tc=10.0, vol=0.01, ptot=1.0, p_init=[1.0], heads=heads,
+                    input="\n".join(lines + pl + ["END"]) + "\n", corpus=True))
     return out
 
 
@@ -222,6 +227,28 @@ def kij_block(rng, gases, hist):
     return lines
 
 
+REDEF = {"CO2(g)": ("CO2 = CO2", -1.468, (304.2, 72.86, 0.225)), "CH4(g)": ("CH4 = CH4", -2.8, (190.6, 45.4, 0.008)),
+         "N2(g)": ("N2 = N2", -3.1864, (126.2, 33.5, 0.039)), "O2(g)": ("O2 = O2", -2.8983, (154.6, 49.8, 0.021)),
+         "Mtg(g)": ("Mtg = Mtg", -2.8, (190.6, 45.4, 0.008)), "Ntg(g)": ("Ntg = Ntg", -3.1864, (126.2, 33.5, 0.039))}
+
+
+def phases_block(rng, gases, hist):
+    """PHASES block redefining one of the gases with its own critical constants (several spellings of the options)"""
+    cand = [g for g in gases if g in REDEF]
+    if not cand:
+        return []
+    g = rng.choice(cand)
+    eq, lk, (tc, pc, om) = REDEF[g]
+    tc = round(tc * rng.uniform(0.9, 1.1), 2)
+    pc = round(pc * rng.uniform(0.9, 1.1), 2)
+    om = round(om + rng.uniform(-0.05, 0.05), 3)
+    style = rng.randrange(4)
+    opts = [f"\t-T_c {tc}; -P_c {pc}; -Omega {om}", f"\tT_c {tc}\n\tP_c {pc}\n\tOmega {om}", f"\t-t_c = {tc}\n\t-p_c = {pc}\n\t-om {om}",
+            f"\t-Omega {om} # acentric\n\t-P_c {pc}\n\t-T_c {tc} # K"][style]
+    hist["own_critical_constants"] = hist.get("own_critical_constants", 0) + 1
+    return ["PHASES", g, f"\t{eq}", f"\t-log_k {lk}", opts]
+
+
 def kij_case(rng, hist):
     """Peng-Robinson phase holding both gases of user-defined binary pairs at tens to hundreds of atm (fixed P / fixed V),
     or those gases as EQUILIBRIUM_PHASES"""
@@ -229,7 +256,10 @@ def kij_case(rng, hist):
     tc = rng.uniform(20, 150)
     ptot = float(f"{10 ** rng.uniform(1.2, 2.6):.6g}")
     kind = rng.choice(["fixedV", "fixedV", "fixedP", "fixedP", "pp"])
-    lines = kij_block(rng, gases, hist) + ["SOLUTION 1", f" temp {tc:.4f}", " pH 6", " units mol/kgw",
+    head = kij_block(rng, gases, hist) if rng.random() < 0.8 else []
+    if rng.random() < 0.35 or not head:
+        head = phases_block(rng, gases, hist) + head
+    lines = head + ["SOLUTION 1", f" temp {tc:.4f}", " pH 6", " units mol/kgw",
                                            f" Na {rng.choice([0.01, 0.1, 0.5])}", " Cl 0.1 charge"]
     case = dict(kind=kind, db="phreeqc.dat", gases=gases, tc=tc, own_kij=True)
     extra = []
